@@ -223,9 +223,11 @@ impl fmt::Display for ESpec {
                     (Some(l), Some(v), None) => write!(f, ":{{{l},{v}}}"),
                     (Some(l), None, Some(wb)) => write!(f, ":{{{l},{wb}}}"),
                     (Some(l), Some(v), Some(wb)) => write!(f, ":{{{l},{v},{wb}}}"),
-                    (None, Some(v), None) => write!(f, ":{{{v}}}"),
-                    (None, Some(v), Some(wb)) => write!(f, ":{{{v},{wb}}}"),
-                    (None, None, Some(wb)) => write!(f, ":{{{wb}}}"),
+                    // Without a level the first slot stays empty: that is how the parser
+                    // reads these forms (`z:{,mpq}`); `z:{15}` would be level 15
+                    (None, Some(v), None) => write!(f, ":{{,{v}}}"),
+                    (None, Some(v), Some(wb)) => write!(f, ":{{,{v},{wb}}}"),
+                    (None, None, Some(wb)) => write!(f, ":{{,{wb}}}"),
                 }
             }
 
